@@ -8,6 +8,7 @@ import (
 
 	"github.com/olive-io/bpmn/schema"
 	bpmn "github.com/olive-io/bpmn/v2"
+	"github.com/olive-io/bpmn/v2/pkg/tracing"
 
 	"verif/internal/drive"
 	"verif/internal/fw"
@@ -164,6 +165,12 @@ func c02Cases(tier string, seed uint64) []fw.Case {
 				}
 			}
 		}
+	}
+	// two instances of one process element reporting to one tracer
+	for _, mode := range []string{"all", "each"} {
+		c := c02Case{Starts: 2, Shape: "ind", Mode: mode, Waiters: 1, Attach: "before", Hist: "plain", Reps: 2, Pre: "siblings"}
+		c.Name = "siblings-" + mode
+		cs = append(cs, fw.MkCase("grid", &c))
 	}
 	// the instance's own context cancelled while requests are unanswered
 	for starts := 1; starts <= 2; starts++ {
@@ -356,7 +363,113 @@ func (r *c02Run) attach() bool {
 	return true
 }
 
+// c02Siblings: two instances of the same process element (two start events, a task behind each) report to ONE
+// tracer handed to both (WithTracer). The first is started at its start event s1 only, the second at s2 only;
+// both tasks are answered: neither instance is complete, whatever its sibling did. Then each gets its other
+// start event: both complete, one cease-flow trace each.
+func c02Siblings(c *c02Case, env *fw.Env, v *fw.V) {
+	cc := *c
+	cc.Starts, cc.Shape = 2, "ind"
+	g := c02Graph(&cc)
+	defs, _, err := step.Parse(g)
+	if err != nil {
+		v.Inconclusive("parse", "%v", err)
+		return
+	}
+	perturb.Off()
+	ctx, cancel := context.WithCancel(context.Background())
+	defer cancel()
+	shared := tracing.NewTracer(ctx)
+	var insts []*drive.Inst
+	for i := 0; i < 2; i++ {
+		in, err := drive.New(env.Label, defs, drive.Opts{Ctx: ctx, RawOptions: []bpmn.Option{bpmn.WithTracer(shared)}, NoSubscribe: i == 1})
+		if err != nil {
+			v.Violate("new-process-error", "error", "%v", err)
+			return
+		}
+		defer in.Cancel()
+		insts = append(insts, in)
+	}
+	a, b := insts[0], insts[1] // a's subscriber sees the traces of both (instance ids tell them apart)
+	waiters := []*drive.Waiter{a.Wait(context.Background()), b.Wait(context.Background())}
+	quiet := func(what string) bool {
+		q := a.Quiesce(step.Watchdog)
+		if !q.Quiescent {
+			v.Inconclusive("watchdog", "no quiescent point %s: %v", what, quiesce.Summary(q.Gs))
+			return false
+		}
+		return true
+	}
+	startAt := func(in *drive.Inst, k int) bool {
+		starts := *in.Proc.Element().StartEvents()
+		if err := in.Proc.StartWith(in.Ctx, schema.FlowNodeInterface(&starts[k])); err != nil {
+			v.Violate("start-error", "siblings", "%v", err)
+			return false
+		}
+		return true
+	}
+	answerAll := func(what string) bool {
+		for guard := 0; guard < 6; guard++ {
+			if !quiet(what) {
+				return false
+			}
+			p := a.Pending()
+			if len(p) == 0 {
+				return true
+			}
+			for _, r := range p {
+				a.Answer(r, bpmn.DoWithResults(nil))
+			}
+		}
+		return quiet(what)
+	}
+	ceases := func(in *drive.Inst) int {
+		n := 0
+		for _, e := range a.Log(0) {
+			if e.Kind == "CeaseFlow" && e.Inst == in.Proc.Id().String() {
+				n++
+			}
+		}
+		return n
+	}
+	first, second := 0, 1
+	if c.Mode == "each" {
+		first, second = 1, 0
+	}
+	if !startAt(a, first) || !startAt(b, second) || !answerAll("after one start event each") {
+		return
+	}
+	for i, in := range insts {
+		if ret, res, _ := in.WaiterState(waiters[i]); ret && res {
+			v.Violate("early-complete", "siblings", "instance %d of two sharing a tracer was reported complete although only one of its two start events has fired (its sibling fired the other one of ITS own)", i+1)
+			return
+		}
+		if n := ceases(in); n != 0 {
+			v.Violate("early-cease", "siblings", "instance %d of two sharing a tracer emitted %d cease-flow traces although only one of its two start events has fired", i+1, n)
+			return
+		}
+	}
+	if !startAt(a, second) || !startAt(b, first) || !answerAll("after the other start event each") {
+		return
+	}
+	for i, in := range insts {
+		if ret, res, _ := in.WaiterState(waiters[i]); !ret || !res {
+			v.Violate("waiter-blocked", "siblings", "instance %d of two sharing a tracer: both start events fired and every task is answered, waiter returned=%v result=%v", i+1, ret, res)
+			return
+		}
+		if n := ceases(in); n != 1 {
+			v.Violate("cease-count", "siblings", "instance %d of two sharing a tracer: %d cease-flow traces at completion (want exactly 1)", i+1, n)
+			return
+		}
+	}
+	v.Add("sibling-pairs", 1)
+}
+
 func c02Run1(c *c02Case, env *fw.Env, v *fw.V) {
+	if c.Pre == "siblings" {
+		c02Siblings(c, env, v)
+		return
+	}
 	g := c02Graph(c)
 	defs, _, err := step.Parse(g)
 	if err != nil {
